@@ -5,3 +5,4 @@ pub mod c15;
 pub mod c02;
 pub mod c14;
 pub mod c06;
+pub mod c10;
